@@ -5,17 +5,22 @@ fn error_bounds<const B: Word>(
 /*@ #[hoist(Self = mode::Up, Name = error_bounds_up)]
     requires
         B >= 2, !(f.repr.significand.v() == 0 && f.repr.exponent != 0),
-        // EXCLUDED: precision == 0 (unlimited): the real function calls f.ulp(), which panics, although the trait documents
-        // (ZERO, ZERO, true, true) for it -- reported as a defect
-        eb_domain(B as int, f.repr.significand.v(), f.repr.exponent as int, f.context.precision as int),
+        f.context.precision != 0 ==> eb_domain(B as int, f.repr.significand.v(), f.repr.exponent as int, f.context.precision as int),
     ensures
+        // unlimited precision: only f itself
+        f.context.precision == 0 ==> ret.0.repr.significand.v() == 0 && ret.0.repr.exponent == 0
+            && ret.1.repr.significand.v() == 0 && ret.1.repr.exponent == 0 && ret.2 && ret.3,
         // exactly the reals that round to f
         f.context.precision != 0 ==> eb_post(Mode::Up, B as int, f.repr.significand.v(), f.repr.exponent as int, f.context.precision as int,
             ret.0.repr.significand.v(), ret.0.repr.exponent as int, ret.1.repr.significand.v(), ret.1.repr.exponent as int, ret.2, ret.3),
 @*/
 {
         /*@ broadcast use round_int_axioms, fbig_zero_const; @*/
-        (f.ulp(), FBig::ZERO, false, true)
+        if f.precision() == 0 {
+            (FBig::ZERO, FBig::ZERO, true, true)
+        } else {
+            (f.ulp(), FBig::ZERO, false, true)
+        }
         /*@ proof {
             if f.context.precision != 0 {
                 let (b, sig, exp, p) = (B as int, f.repr.significand.v(), f.repr.exponent as int, f.context.precision as int);
